@@ -547,6 +547,9 @@ def compileADF(expr, psets):
     for pset, subexpr in reversed(list(zip(psets, expr))):
         pset.context = dict(pset.context, **adfdict)
         func = compile(subexpr, pset)
+        if len(pset.arguments) == 0 and pset is not psets[0]:
+            # an ADF without argument is still called in the trees using it
+            func = (lambda value=func: value)
         adfdict.update({pset.name: func})
     return func
 
